@@ -538,7 +538,15 @@ func (m *Mutex) Unlock() {
 		panic("sync: unlock of unlocked mutex")
 	}
 	m.held = false
+	if UnlockYields {
+		// a point right after the release: code that runs between an Unlock and the next
+		// synchronisation (publish-then-initialise windows) becomes interleavable
+		s.point("unlocked", nil)
+	}
 }
+
+// UnlockYields makes every Mutex.Unlock a scheduling point (after the release).
+var UnlockYields = true
 
 // RWMutex: writers and readers modelled exactly.
 type RWMutex struct {
